@@ -751,6 +751,10 @@ fn observe(out: &mut Out, bytes: &[u8], base: u64, users: &[u64], rng: &mut Rng,
         other => out.emit(&json!({ "ev": "arch", "res": other.json(|_| json!(0)) })),
     }
     queries("", out, &elf, rng);
+    let ex = guard_plain(|| elf.exported_symbols());
+    out.emit(&json!({ "ev": "exported", "res": ex.json(|v| {
+        json!(v.iter().map(|s| json!({ "n": s.name(), "a": addr(s.address()) })).collect::<Vec<_>>())
+    }) }));
     if lift {
         lift_events("", out, &elf);
     }
